@@ -59,7 +59,11 @@ GensByName(n) ==
       [] n = "devprobe" -> {Gen(KindsOf(InitFam, {NoPrio, 0, 1, 65534, 65535}), 2, 1, 2, FALSE),
                             Gen({K("init", NoPrio)}, 3, 1, 3, TRUE)}
       [] n = "mix4t" -> {Gen(KindsOf(InArrays, PriosTiny), 3, 3, 4, FALSE)}
-      [] n = "quick" -> GensByName("init3") \cup GensByName("fini2") \cup GensByName("mix3") \cup GensByName("ar3")
+      (* quick: three entries over the boundary priorities, two entries over all of them (9 < 100
+         tells a numeric from a lexicographic comparison of the suffix) *)
+      [] n = "init3s" -> {Gen(KindsOf(InitFam, {NoPrio, 0, 1, 65534, 65535}), 3, 3, 3, FALSE),
+                          Gen(KindsOf(InitFam, PriosDesign \cup {9}), 2, 2, 2, FALSE)}
+      [] n = "quick" -> GensByName("init3s") \cup GensByName("fini2") \cup GensByName("mix3") \cup GensByName("ar3")
       [] n = "thorough_a" -> GensByName("init4")
       [] n = "thorough_b" -> GensByName("fini3") \cup GensByName("wide3") \cup GensByName("mix4t")
                               \cup GensByName("ar3x")
